@@ -1,5 +1,6 @@
 import TracklibVerif.Lemmas.ExprAggField
 import TracklibVerif.Lemmas.ExprAggFieldEx
+import TracklibVerif.Props.C02
 /-! # C02 — the aggregate functions as coded are their documented closed forms (T13, T14)
 
 `denoteM` / `denote` take the definitions of the functions as coded (`aggFn` of `Model/Expr.lean`, the loops of
@@ -90,6 +91,25 @@ theorem median_index_arithmetic (N : Nat) (hev : N % 2 = 0) (h2 : 2 ≤ N) :
     pyInt ((N : Rat) / 2 - 1) = ((N / 2 - 1 : Nat) : Int) ∧ pyInt ((N : Rat) / 2) = ((N / 2 : Nat) : Int) :=
   median_ranks_even N hev h2
 
+/-- **T13/T14 inside an expression**: the tree semantics of `f{a}` for an aggregate `f` is the constant vector of the value
+`aggFn f` returns on the column of `a` — the value T8, T9, T13, T14 characterise — … -/
+theorem expression_aggregate_value (tr : Tr α) (f a : Str) (ca : List α) (r : α) (ga : getAF tr a = .ok ca)
+    (hf : isVoidFn f = false) (hg : isAggFn f = true) (hr : aggFn f ca = .ok r) :
+    denoteM tr (.call f (.var a)) = .ok (.vec (List.replicate tr.n r)) := by
+  rw [← opAgg_denote tr f a ca ga hf hg]
+  simp only [opAgg, ga, hr, Except.map, bind, Except.bind]
+
+/-- … and `Track.operate("f{a}")`, from the source string, returns that value at every observation and leaves the track as it
+was: with T13 for `f = SUM`, `operate("SUM{a}")` is Σ of the non-NaN values of `a` at every observation. -/
+theorem operate_aggregate_value (tr : Tr α) (f a : Str) (ca : List α) (r : α)
+    (h : SrcOK (.call f (.var a))) (hq : NoQuote (desugar (.call f (.var a)))) (hw : WFx (desugar (.call f (.var a))))
+    (hn : tr.n ≠ 0) (hnt : NoTemps tr) (hl : NoLitNames tr)
+    (ga : getAF tr a = .ok ca) (hf : isVoidFn f = false) (hg : isAggFn f = true) (hr : aggFn f ca = .ok r) :
+    operate tr (src (.call f (.var a))) = (.ok (some (List.replicate tr.n r)), tr) := by
+  have hd : denoteM tr (desugar (.call f (.var a))) = .ok (.vec (List.replicate tr.n r)) :=
+    expression_aggregate_value tr f a ca r ga hf hg hr
+  exact operate_source_value tr (.call f (.var a)) _ h hq hw hn hnt hl hd
+
 /-! ## non-vacuity: exact rationals with a NaN element -/
 
 /-- the hypotheses are those of exact arithmetic -/
@@ -140,5 +160,14 @@ example : pyInt ((4 : Nat) / 2 - 1 : Rat) = 1 ∧ pyInt ((4 : Nat) / 2 : Rat) = 
 /-- `MEDIAN{[NaN, 1, NaN]}` is NaN -/
 example : ∃ r, aggFn ['M', 'E', 'D', 'I', 'A', 'N'] ([none, some 1, none] : List (Option Rat)) = .ok r ∧ Scalar.isNaN r = true :=
   aggregate_median_nan exactQ_model _ (by decide) (by decide)
+
+/-- `operate("SUM{a}")` on the toy track of `Props/C02.lean` (`a = [1, -2, 4]`) -/
+example : operate trEx "SUM{a}".toList = (.ok (some [3, 3, 3]), trEx) := by
+  have h := operate_aggregate_value trEx ['S', 'U', 'M'] ['a'] [1, -2, 4] 3
+    (by simp only [SrcOK, NameOK]; decide) (by simp only [desugar, NoQuote, GoodTok]; decide) (by simp only [desugar, WFx]; decide)
+    (by decide) trEx_noTemps trEx_noLit (by rfl) (by decide) (by decide) (by rfl)
+  have hs : src (.call ['S', 'U', 'M'] (.var ['a'])) = "SUM{a}".toList := by decide +kernel
+  rw [hs] at h
+  exact h
 
 end TV.C02
